@@ -215,14 +215,21 @@ def c17_stage(tier):
     if rc != 0:
         return cov, [], ["cannot generate the C17 corpus: " + out[-300:]]
     subsets = [list(s) for k in range(1, 6) for s in itertools.combinations(EVS, k)]
-    subsets.sort(key=lambda s: -len(s))  # the all-features build first: it is the baseline
+    subsets.sort(key=lambda s: -len(s))
+    # the baseline is the crate's default build (its own `default` feature list, dependency features
+    # included), not the five evaluator features spelled out: that one is subset number 31
+    DEFAULT = "default"
+    subsets.insert(0, DEFAULT)
     results = {}
     import concurrent.futures
 
     def build_and_run(sub):
-        name = "+".join(SHORT[e] for e in sub)
+        if sub == DEFAULT:
+            name, feats, sub = "default", "default_build", list(EVS)
+        else:
+            name = "+".join(SHORT[e] for e in sub)
+            feats = ",".join(sub)
         tdir = f"{BUILD}/feat/{name}"
-        feats = ",".join(sub)
         rc, out = run(["cargo", "build", "--offline", "--no-default-features", "--features", feats, "--bin", "scv_feat"], env={"CARGO_TARGET_DIR": tdir}, cwd=P, timeout=1200)
         if rc != 0:
             return name, sub, {"build": False, "log": out[-1500:]}
@@ -238,10 +245,9 @@ def c17_stage(tier):
     first = json.loads(open(c).readline().split("\t")[1])
     built = 0
     compared = 0
-    base_name = "+".join(SHORT[e] for e in EVS)
-    base = results[base_name][1]
+    base = results.pop("default")[1]
     if not base.get("build"):
-        return cov, [], ["the all-features probe build failed: " + base.get("log", "")[-500:].replace("\n", " | ")]
+        return cov, [], ["the default-features probe build failed: " + base.get("log", "")[-500:].replace("\n", " | ")]
     base_map = {}
     for l in base["lines"]:
         p = l.split("\t", 2)
@@ -271,7 +277,7 @@ def c17_stage(tier):
                 if differing <= 5:
                     case = json.loads(b[0]) if b else first
                     viol.append({"property": "C17", "config": name, "class": "behaviour-differs-from-default-build", "sig": f"C17|{name}|behaviour-differs|{case.get('evaluator','?')}",
-                                 "detail": f"in the build with only {','.join(sub)}: {p[2]} ; in the all-features build: {b[1] if b else '(missing)'}", "seed": SEED, "case": case})
+                                 "detail": f"in the build with only {','.join(sub)}: {p[2]} ; in the default build: {b[1] if b else '(missing)'}", "seed": SEED, "case": case})
         want = set(SHORT[e] for e in sub)
         export_checks += 1
         if got_evs != want:
@@ -298,8 +304,8 @@ def c17_stage(tier):
     for l in base["lines"][1:4]:
         p = l.split("\t", 2)
         if len(p) == 3:
-            samples.append({"configuration": "every subset containing the evaluator", "case": json.loads(p[1]), "outcome_in_all_features_build": p[2]})
-    cov["counters"] = {"evaluations": compared, "distinct_nontrivial": compared - len(base_map), "passed": compared - differing}
+            samples.append({"configuration": "every subset containing the evaluator", "case": json.loads(p[1]), "outcome_in_default_build": p[2]})
+    cov["counters"] = {"evaluations": compared, "distinct_nontrivial": compared, "passed": compared - differing}
     cov["samples"] = samples
     cov.update(subsets_built=built, outcomes_compared=compared, outcomes_differing=differing, export_sets_checked=export_checks, negative_export_probes_rejected=neg_ok, negative_export_probes_accepted=neg_bad)
     shutil.rmtree(f"{BUILD}/feat", ignore_errors=True)
